@@ -39,6 +39,7 @@ deriving Repr
 structure ExtractOut where
   pkgs : List Nat := []     -- ids of the packages it returns
   err : Bool := false       -- returns a non-nil error
+  other : Bool := false     -- returns inventory that is not a package (findings): counts as "produced results"
   panics : Bool := false    -- panics (the engine does not recover)
 deriving Repr
 
@@ -146,7 +147,7 @@ def runExtractor (c : Cfg) (f : Faults) (s : St) (e : Nat) (p : Path) (size : Na
   let out := c.extract e p
   if out.panics then (s, true) else
   let s := if out.err then { s with errs := s.errs ++ [e] } else s
-  if out.pkgs.isEmpty then (s, false)
+  if out.pkgs.isEmpty && !out.other then (s, false)
   else ({ s with found := s.found ++ [e], pkgs := s.pkgs ++ out.pkgs.map fun i => ⟨i, e, p⟩ }, false)
 
 /-- the loop over extractors with the lazy size check (`fSize == -1` ⇔ `checked = false`) -/
